@@ -74,6 +74,33 @@ def same_value_loads(f, x, y):
     return False
 
 
+def may_store(module, g, path, seen=None):
+    seen = seen if seen is not None else set()
+    if g is None or g.decl or g.name in seen:
+        return False
+    seen.add(g.name)
+    for i in g.all_insts():
+        if i.op == 'store' and fld(g, i) == path:
+            return True
+        if i.op == 'call' and i.callee and not i.is_intrinsic() and may_store(module, module.fn(i.callee), path, seen):
+            return True
+    return False
+
+
+def writer_between(f, ld, st, path):
+    """a call that may store `path` lying on a path from the load to the store"""
+    for c in f.all_insts():
+        if c.op != 'call' or not c.callee or c.is_intrinsic():
+            continue
+        if not may_store(f.module, f.module.fn(c.callee), path):
+            continue
+        after_load = (c.block is ld.block and c.pos > ld.pos) or (c.block is not ld.block and c.block in f.reachable_from(ld.block))
+        before_store = (c.block is st.block and c.pos < st.pos) or (c.block is not st.block and st.block in f.reachable_from(c.block))
+        if after_load and before_store:
+            return c
+    return None
+
+
 def hash_calls(f):
     return [i for i in f.all_insts() if i.op == 'call' and i.callee is None and i.x.get('fty') == HASH_FTY]
 
